@@ -62,10 +62,12 @@ theorem IsMax_append {a b la lb} (ha : IsMax a la) (hb : IsMax b lb) : IsMax (op
 /-! ### the sketch invariant -/
 
 /-- ghost: every item ever fed to the sketch (level 0's `entered`) -/
-def entered0 (s : Sketch ρ) : List Int :=
-  match s.compactors with
+def entered0L (cs : List (Compactor ρ)) : List Int :=
+  match cs with
   | c :: _ => c.entered
   | [] => []
+
+def entered0 (s : Sketch ρ) : List Int := entered0L s.compactors
 
 structure SInv (T : Tun) (s : Sketch ρ) : Prop where
   k2 : 2 ≤ s.k
@@ -100,10 +102,10 @@ theorem new_SInv {T : Tun} (hT : TunOK T) (F : SecFns ρ) (k : Nat) (hra : Bool)
   refine ⟨hk, ?_, by simp [Sketch.new, Sketch.grow], by simp [Sketch.new, Sketch.grow, sumItems, Compactor.mk', Compactor.numItems],
     by simp [Sketch.new, Sketch.grow], by simp [Sketch.new, Sketch.grow, totalW, weightP, Compactor.mk', cntP],
     by simp [Sketch.new, Sketch.grow], by simp [Sketch.new, Sketch.grow],
-    by simp [Sketch.new, Sketch.grow, entered0, Compactor.mk'], ?_, ?_⟩
+    by simp [Sketch.new, Sketch.grow, entered0, entered0L, Compactor.mk'], ?_, ?_⟩
   · exact ⟨mk'_CInv hT F hra 0 _ hk, trivial⟩
-  · left; simp [Sketch.new, Sketch.grow, entered0, Compactor.mk']
-  · left; simp [Sketch.new, Sketch.grow, entered0, Compactor.mk']
+  · left; simp [Sketch.new, Sketch.grow, entered0, entered0L, Compactor.mk']
+  · left; simp [Sketch.new, Sketch.grow, entered0, entered0L, Compactor.mk']
 
 /-! ### compress on a sketch -/
 
@@ -120,7 +122,7 @@ theorem compress_SInv {T : Tun} (hT : TunOK T) (F : SecFns ρ) (s : Sketch ρ) (
     { retained := s.numRetained, maxNom := s.maxNomSize } acc = out at sp
   have hent : entered0 ({ s with compactors := out.1, numRetained := out.2.1.retained, maxNomSize := out.2.1.maxNom } : Sketch ρ) = entered0 s := by
     have := sp.ent0
-    simp only [entered0]
+    simp only [entered0, entered0L]
     cases h1 : out.1 <;> cases h2 : s.compactors <;> simp [h1, h2] at this ⊢ <;> exact this
   refine ⟨⟨h.k2, sp.inv, sp.nonnil h.nonnil, ?_, ?_, ?_, fun _ => sp.ne, ?_, ?_, ?_, ?_⟩, sp.throws, hent, ?_, ?_, ?_, ?_, ?_⟩ <;> (try trivial)
   · simpa using sp.ret
@@ -161,7 +163,7 @@ theorem update_SInv {T : Tun} (hT : TunOK T) (F : SecFns ρ) (s : Sketch ρ) (x 
   have hlen : (c.append x).items.length = c.items.length + 1 := by
     simp only [Compactor.append]; split <;> simp
   have hlg : (c.append x).lgWeight = 0 := hc.lg
-  have hent1 : entered0 s1 = x :: entered0 s := by simp [entered0, hs1c, hcs, Compactor.append]
+  have hent1 : entered0 s1 = x :: entered0 s := by simp [entered0, entered0L, hs1c, hcs, Compactor.append]
   have hI1 : SInv T s1 := by
     refine ⟨h.k2, by rw [hs1c]; exact ⟨happ, ht⟩, by rw [hs1c]; simp, ?_, ?_, ?_, ?_, ?_, ?_, ?_, ?_⟩
     · show s.numRetained + 1 = sumItems s1.compactors
@@ -178,8 +180,8 @@ theorem update_SInv {T : Tun} (hT : TunOK T) (F : SecFns ρ) (s : Sketch ρ) (x 
         · have := h.ne hn; rw [hcs] at this; exact (AllNE_cons.1 this).2
     · intro h0; simp [s1] at h0
     · show s.n + 1 = (entered0 s1).length
-      simp only [entered0, hs1c, Compactor.append, List.length_cons]
-      have := h.ent; simp only [entered0, hcs] at this; omega
+      simp only [entered0, entered0L, hs1c, Compactor.append, List.length_cons]
+      have := h.ent; simp only [entered0, entered0L, hcs] at this; omega
     · show IsMin (optMin s.minItem x) (entered0 s1)
       rw [hent1]; exact IsMin_cons x h.mn
     · show IsMax (optMax s.maxItem x) (entered0 s1)
